@@ -8,6 +8,18 @@ projected map and the outcome compared after every call), seeded random
 request streams over a catalogue of layouts, and validation of every recorded
 trace by the NodeAllocTrace monitor.
 
+Concurrent use (application threads calling find_slots / allocate_slot /
+release_slots on one NodeList): the design model has a concurrent part
+(Callers # {}: one step per schedule point, node locks as a variable, deviation
+DevSearchOutsideLock), checked exhaustively; the rig runs the real classes in
+logical threads under the baton controller (harness/sched_ctl.py) with schedule
+points at every node lock acquisition and between search and record inside
+Node.find_slot: all schedules with at most 2 preemptions (quick) / all schedules
+(thorough) of small programs, TLC behaviours of the concurrent model as exact
+schedules (map compared after every node-level step) and seeded random programs
+and schedules; the merged traces go through the same monitor (CTake / CGive /
+CFind / CRelease events).
+
 Clauses are "C01.xxx" / "C02.xxx" / "C03.xxx"; only those whose prefix equals
 chk.pid are reported.  "N.xxx" entries of the monitor are notes (progress
 questions such as the last-failed cache refusing a request that fits), never
@@ -22,7 +34,11 @@ rollback (C03.FailedFindChangedMap, Leak), find_slot shrinking the slot when cor
 are short (C02.CoresPerSlot), find_slot returning fewer GPUs than asked
 (C02.GpusPerSlot), release_slots releasing the first slot only (C03.NotRestored),
 allocate_slot(_check=True) without the room check for cores
-(C01.SuppliedBusyCoreAccepted, NoCoreShared).
+(C01.SuppliedBusyCoreAccepted, NoCoreShared).  Concurrency: find_slot recording the
+slot after leaving the node lock (seeded change, source tree via RP_VERIF_SRC:
+C01.NoCoreShared, CoreShareBound, GrantedBusyCore, C03.HeldOfferedAgain, class
+'application threads sharing one NodeList'), a node lock that excludes nobody
+(same clauses, found through the schedule point between search and record).
 '''
 
 import os
@@ -41,7 +57,13 @@ INVARIANTS = ['TypeOK', 'InvNoCoreShared', 'InvCoreShareBound', 'InvGpuShareBoun
               'InvRejectOversize', 'InvIdleIsInitial', 'NoteCacheSound']
 PROPERTIES = ['ActRestores', 'ActFailedUnchanged', 'ActReleaseClean']
 DEVS = ['DevNoLfsRaises', 'DevPosVsIndex', 'DevSupDupUnchecked', 'DevNegIndexPartial',
-        'DevCacheInverted']
+        'DevCacheInverted', 'DevSearchOutsideLock']
+# the concurrent part of the model (Callers # {}): what is checked there
+CONC_INVARIANTS = ['TypeOK', 'InvNoCoreShared', 'InvCoreShareBound', 'InvGpuShareBound', 'InvLfsBound',
+                   'InvMemBound', 'InvNoBlocked', 'InvOnlyKnown', 'InvOccMatchesHeld', 'InvShape',
+                   'InvRejectOversize', 'InvIdleIsInitial', 'InvOccBound', 'InvLockDiscipline',
+                   'InvRecordStillFree', 'InvCallerShape']
+CONC_PROPERTIES = ['ActRestores']
 # deviations the code under /repo has today: the behaviours replayed into the real classes
 # come from the model with these set TRUE, so that the model predicts outcome and map of
 # every call exactly.  Remove a name when the deviation is repaired in /repo (a stale entry
@@ -95,6 +117,51 @@ EXPECT = [
 ]
 
 
+# concurrent part of the design model: (name, layout, requests, supplied slots, callers)
+CONC_SCENARIOS = [
+    ('c-two',   L(2, 1, 0, 2, 2), [req(1, nc=1), req(2, nc=1)], [S(1, 1, [[0, 4]])], 2),
+    ('c-gpu',   L(2, 1, 1, 2, 2), [req(1, nc=1, ng=1, go=2), req(2, nc=1, lfs=2)],
+     [S(1, 1, [[0, 4]], [[0, 2]])], 2),
+    ('c-small', L(2, 2, 0, 2, 2), [req(1, nc=1), req(3, nc=1)], [S(0, 0, [[0, 4]])], 2),
+    ('c-three', L(2, 1, 0, 2, 2), [req(1, nc=1), req(2, nc=1)], [], 3),
+]
+CONC_QUICK = ('c-two', 'c-gpu')
+# what DevSearchOutsideLock has to break (checked without the precondition invariant)
+CONC_DEV_INVARIANTS = ['InvNoCoreShared', 'InvCoreShareBound', 'InvGpuShareBound', 'InvOccBound',
+                       'InvOccMatchesHeld']
+
+
+def P(**threads):
+    return {t: list(ops) for t, ops in threads.items()}
+
+
+_1c, _g = Q(nc=1), Q(nc=1, ng=1, go=2)
+# small programs whose schedules are enumerated: (name, layout, programs, preemption bound thorough)
+CONC_CASES = [
+    ('two-nodes', L(2, 1, 0, 2, 2),
+     P(t1=[('find', 'a', _1c, 2), ('release', 'a')], t2=[('find', 'b', _1c, 1), ('release', 'b')]), None),
+    ('share-gpu', L(1, 2, 2, 2, 2),
+     P(t1=[('find', 'a', _g, 1), ('release', 'a')], t2=[('find', 'b', _g, 1), ('release', 'b')]), None),
+    ('supplied', L(2, 1, 1, 2, 2),
+     P(t1=[('find', 'a', _g, 2), ('release', 'a')],
+       t2=[('alloc', 's', S(1, 1, [[0, 4]], [[0, 2]])), ('find', 'b', _1c, 1), ('release', 's'),
+           ('release', 'b')]), None),
+    ('two-tasks', L(3, 4, 2, 4, 4),
+     P(t1=[('find', 'a', Q(nc=2, ng=1, lfs=1, mem=1), 1), ('release', 'a')],
+       t2=[('find', 'b', Q(nc=2, ng=1, lfs=1, mem=1), 1), ('release', 'b')]), None),
+    ('rollback', L(2, 2, 1, 2, 2),
+     P(t1=[('find', 'a', _1c, 3), ('release', 'a')], t2=[('find', 'b', Q(nc=2), 1), ('release', 'b')]), None),
+    ('three', L(2, 2, 1, 2, 2),
+     P(t1=[('find', 'a', _1c, 1), ('release', 'a')], t2=[('find', 'b', _1c, 1), ('release', 'b')],
+       t3=[('find', 'c', Q(nc=2), 1), ('release', 'c')]), 3),
+    ('shifted', L(2, 2, 1, 2, 2, ids=(1, 2)),
+     P(t1=[('find', 'a', _1c, 2), ('release', 'a')], t2=[('find', 'b', _g, 2), ('release', 'b')]), None),
+    ('noinfo', L(2, 2, 0, None, None),
+     P(t1=[('find', 'a', _1c, 2), ('release', 'a')], t2=[('find', 'b', Q(nc=2), 2), ('release', 'b')]), None),
+]
+CONC = 'application threads sharing one NodeList'
+
+
 # ------------------------------------------------------------------------------
 def tla_rr(r):
     return ('[nc |-> %d, co |-> %d, ng |-> %d, go |-> %d, lfs |-> %d, mem |-> %d]'
@@ -110,14 +177,22 @@ def tla_sup(s):
             % (s['at'], s['node'], tla_entries(s['cores']), tla_entries(s['gpus']), s['lfs'], s['mem']))
 
 
-def mc_files(lay, reqs, sups, devs=(), invariants=None, props=None, holders=3):
+def mc_files(lay, reqs, sups, devs=(), invariants=None, props=None, holders=3, callers=0):
+    '''callers > 0: the concurrent part of the model, callers h1 .. hN (holders == callers)'''
+    if callers:
+        holders = callers
+        if invariants is None:
+            invariants = CONC_INVARIANTS
+        if props is None:
+            props = CONC_PROPERTIES
     mod = ('---- MODULE MC ----\nEXTENDS NodeAlloc\n'
-           'MCHolders == {%s}\nMCReqs == <<%s>>\nMCSups == <<%s>>\n====\n'
+           'MCHolders == {%s}\nMCCallers == {%s}\nMCReqs == <<%s>>\nMCSups == <<%s>>\n====\n'
            % (', '.join('"h%d"' % (i + 1) for i in range(holders)),
+              ', '.join('"h%d"' % (i + 1) for i in range(callers)),
               ', '.join('[rr |-> %s, n |-> %d]' % (tla_rr(q['rr']), q['n']) for q in reqs),
               ', '.join(tla_sup(s) for s in sups)))
     cfg = 'CONSTANTS\n ' + lay.cfg_constants()
-    cfg += ' Holders <- MCHolders\n Reqs <- MCReqs\n Sups <- MCSups\n'
+    cfg += ' Holders <- MCHolders\n Callers <- MCCallers\n Reqs <- MCReqs\n Sups <- MCSups\n'
     for d in DEVS:
         cfg += ' %s = %s\n' % (d, 'TRUE' if d in devs else 'FALSE')
     cfg += 'SPECIFICATION Spec\nCHECK_DEADLOCK FALSE\n'
@@ -187,6 +262,65 @@ def drive_behaviour(lay, steps):
             bad = {'step': k, 'op': op, 'what': 'map differs from the model',
                    'code': ev['nodes'], 'model': model_nodes(lay, mo)}
     return rig.trace(), ops, bad
+
+
+# ------------------------------------------------------------------------------
+# concurrent use
+def conc_from_behaviour(path, reqs, sups):
+    '''a behaviour of the concurrent model -> (programs, thread schedule, the model's map
+       after every node-level step): the model's steps are the rig's schedule points'''
+    programs, script, maps = {}, [], []
+    for act, args, state in tlc.parse_sim_file(path):
+        if act == 'Init' or not args:
+            continue
+        a = [x.strip().strip('"') for x in args.split(',')]
+        c = a[0]
+        if act == 'CFindStart':
+            q = reqs[int(a[1]) - 1]
+            programs.setdefault(c, []).append(('find', c, q['rr'], q['n']))
+        elif act == 'CRelStart':
+            programs.setdefault(c, []).append(('release', c))
+        elif act == 'CSupStart':
+            programs.setdefault(c, []).append(('alloc', c, sups[int(a[1]) - 1]))
+            if state['cs'][c]['pc'] == 'idle':            # refused before the node lock
+                maps.append(state['O'])
+        elif act in ('CRecord', 'CRollback', 'CRelStep', 'CSupApply'):
+            maps.append(state['O'])
+        elif act != 'CAcqSearch':
+            continue
+        script.append(c)
+    return programs, script, maps
+
+
+def conc_key(tr):
+    return repr([[e.get(k) for k in ('ev', 't', 'h', 'res', 'slot', 'slots', 'sup', 'nodes')]
+                 for e in tr['events']])
+
+
+def conc_run(lay, programs, schedule):
+    rig = R.ConcRig(lay, programs, R.sched_ctl.scripted(list(schedule)))
+    return rig.run(), rig.deadlock
+
+
+def conc_random(rng, lay):
+    '''2-3 threads with short random programs'''
+    init  = R.NodeAllocRig(lay).proj_nodes()
+    progs = {}
+    for t in range(rng.choice([2, 2, 3])):
+        ops, k = [], 0
+        for _ in range(rng.randint(1, 3)):
+            k += 1
+            h = 't%d_%d' % (t + 1, k)
+            if rng.random() < 0.8:
+                r, n = random_rr(rng, lay)
+                ops.append(('find', h, r, n))
+            else:
+                ops.append(('alloc', h, random_sup(rng, lay, init, None)))
+            if rng.random() < 0.7:
+                ops.insert(rng.randint(len(ops) - 1, len(ops)) if rng.random() < 0.2 else len(ops),
+                           ('release', h))
+        progs['t%d' % (t + 1)] = ops
+    return progs
 
 
 # ------------------------------------------------------------------------------
@@ -331,6 +465,8 @@ def random_stream(rng, lay, hazard=None):
 
 # ------------------------------------------------------------------------------
 def classify(inp):
+    if inp.get('kind') == 'conc':
+        return CONC
     if inp.get('hazard') == 'dup':
         return DUP
     if inp.get('hazard') == 'neg':
@@ -369,14 +505,14 @@ def validate(chk, items, notes, pool):
         for i, errs in zip(idxs, res):
             lay, tr, inp = items[i]
             chk.traces += 1
-            evs = tuple(e['ev'] + ':' + e['res'] for e in tr['events'])
-            if any(x in ('Find:none', 'Find:raise', 'Alloc:refused') for x in evs):
-                chk.nontrivial.add(hash((lay.key(), evs)))
+            evs = tuple(e['ev'] + ':' + e.get('res', '') for e in tr['events'])
+            if any(x in ('Find:none', 'Find:raise', 'Alloc:refused', 'CFind:none') for x in evs):
+                chk.nontrivial.add(hash((lay.key(), evs, tuple(e.get('t', '') for e in tr['events']))))
             for err in errs:
                 pre = err.split('.')[0]
                 if pre == 'N':
                     notes[err] = notes.get(err, 0) + 1
-                    notes.setdefault('example ' + err, {'layout': lay.as_dict(), 'ops': inp['ops']})
+                    notes.setdefault('example ' + err, {'layout': lay.as_dict(), 'ops': inp.get('ops') or inp.get('programs')})
                 elif pre == 'X':
                     raise Machinery('monitor met an unknown event: %s' % inp)
                 elif pre == chk.pid:
@@ -449,6 +585,39 @@ def _run(chk, tier, seed, pool):
 
     f_dev = [] if quick else [pool.submit(deviation, x) for x in EXPECT]
 
+    # ---- 6a. concurrent part of the design model: exhaustive, behaviours, deviation ----
+    cscen = [c for c in CONC_SCENARIOS if c[0] in CONC_QUICK] if quick else CONC_SCENARIOS
+
+    def conc_exhaustive(sc):
+        name, lay, reqs, sups, nc = sc
+        return tlc.run('NodeAlloc', 'MC', 'MC.cfg', workers=2 if name in ('c-small', 'c-three') else 1,
+                       timeout=1500, extra_files=mc_files(lay, reqs, sups, callers=nc))
+
+    def conc_simulate(x):
+        (name, lay, reqs, sups, nc), sd = x
+        dump = tlc.scratch('b-nodealloc_sim_')
+        try:
+            res = tlc.run('NodeAlloc', 'MC', 'MC.cfg', workers=1, timeout=600,
+                          simulate='num=%d' % (25 if quick else 250), depth=45, seed=sd, dump_dir=dump,
+                          extra_files=mc_files(lay, reqs, sups, callers=nc,
+                                               devs=[d for d in AS_CODED if d != 'DevSearchOutsideLock'],
+                                               invariants=['TypeOK'], props=[]))
+            return res, [conc_from_behaviour(f, reqs, sups)
+                         for f in sorted(glob.glob(os.path.join(dump, 'tr_*')))]
+        finally:
+            shutil.rmtree(dump, ignore_errors=True)
+
+    def conc_deviation(sc):
+        name, lay, reqs, sups, nc = sc
+        return tlc.run('NodeAlloc', 'MC', 'MC.cfg', workers=1, timeout=900,
+                       extra_files=mc_files(lay, reqs, sups, callers=nc, devs=['DevSearchOutsideLock'],
+                                            invariants=CONC_DEV_INVARIANTS, props=[]))
+
+    cseeds = [rng.randrange(10 ** 6) for _ in cscen]
+    f_csim = [pool.submit(conc_simulate, x) for x in zip(cscen, cseeds)]
+    f_cexh = [pool.submit(conc_exhaustive, sc) for sc in cscen]
+    f_cdev = [] if quick else [pool.submit(conc_deviation, sc) for sc in cscen[:2]]
+
     # ---- 3b. ... replayed call by call into the real classes (spec -> code) ---------
     items, mism, nbeh = [], [], 0
     for (name, lay, reqs, sups), fut in zip(SCENARIOS, f_sim):
@@ -461,13 +630,15 @@ def _run(chk, tier, seed, pool):
             items.append((lay, tr, inp))
             if bad:
                 mism.append(dict(bad, scenario=name, ops=ops[:bad['step'] + 1]))
+    if nbeh and not any(inp['ops'] for _, _, inp in items):
+        raise Machinery('no operation could be read from the TLC behaviour dumps (action labels?)')
     chk.notes.append('spec -> code: %d TLC behaviours of the as-coded model replayed, outcome and '
                      'projected map compared after every call: %d behaviours differ' % (nbeh, len(mism)))
     if mism:
         chk.notes.append({'first model / code difference': mism[0]})
 
     # ---- 4. seeded random request streams over the layout catalogue ------------------
-    nrand = 600 if quick else 12000
+    nrand = 500 if quick else 12000
     lays  = [x for k, x in enumerate(LAYOUTS) if k not in QUICK_SKIP] if quick else LAYOUTS
     for i in range(nrand):
         lay    = lays[i % len(lays)] if i < 2 * len(lays) else rng.choice(lays)
@@ -477,6 +648,66 @@ def _run(chk, tier, seed, pool):
         tr, ops = random_stream(rng, lay, hazard)
         items.append((lay, tr, {'kind': 'random', 'layout': lay.as_dict(), 'ops': ops,
                                 'hazard': hazard or 'none'}))
+
+    # ---- 6b. concurrent callers on the real classes ----------------------------------
+    seen, nsched, cmis, ncb = set(), 0, [], 0
+
+    def conc_item(lay, programs, tr, dl, how):
+        inp = {'kind': 'conc', 'how': how, 'layout': lay.as_dict(),
+               'programs': programs, 'schedule': tr['schedule']}
+        if dl:
+            if chk.pid == 'C03':
+                chk.violation('C03.CallNeverReturns', CONC, 'threads block each other for good: %s' % dl,
+                              {'rig': 'nodealloc', 'input': inp, 'errs': ['C03.CallNeverReturns']})
+            return
+        key = (lay.key(), conc_key(tr))
+        if key not in seen:                  # identical merged traces are validated once
+            seen.add(key)
+            items.append((lay, tr, inp))
+
+    # TLC behaviours of the concurrent model as exact schedules (spec -> code)
+    for (name, lay, reqs, sups, nc), fut in zip(cscen, f_csim):
+        res, behaviours = fut.result()
+        chk.add_tlc(res, 'simulate:' + name)
+        for programs, script, maps in behaviours:
+            if not programs:
+                continue
+            tr, dl = conc_run(lay, programs, script)
+            nsched += 1
+            ncb    += 1
+            got = [e['nodes'] for e in tr['events'] if e['ev'] in ('CTake', 'CGive', 'Alloc')]
+            exp = [model_nodes(lay, o) for o in maps]
+            if got[:len(exp)] != exp and not dl:
+                k = min([i for i in range(min(len(got), len(exp))) if got[i] != exp[i]] or [len(got)])
+                cmis.append({'scenario': name, 'programs': programs, 'schedule': script, 'step': k})
+            conc_item(lay, programs, tr, dl, 'tlc-behaviour:' + name)
+    if not ncb:
+        raise Machinery('no schedule could be read from the concurrent TLC behaviour dumps (action labels?)')
+    chk.notes.append('spec -> code, concurrent: %d TLC behaviours of the concurrent model replayed as exact '
+                     'thread schedules, map compared after every node-level step: %d differ' % (ncb, len(cmis)))
+    if cmis:
+        chk.notes.append({'first concurrent model / code difference': cmis[0]})
+
+    # all schedules of small programs (quick: at most 2 preemptions)
+    for name, lay, programs, bound in CONC_CASES:
+        n0 = nsched
+        for tr, dl in R.explore(lay, programs, preempt_bound=(1 if len(programs) > 2 else 2) if quick else bound,
+                                max_runs=100000 if quick else 2000):
+            nsched += 1
+            conc_item(lay, programs, tr, dl, 'enumerated:' + name)
+        chk.cov.setdefault('concurrent_schedules', {})[name] = nsched - n0
+
+    # seeded random programs under seeded random schedules
+    for i in range(40 if quick else 1000):
+        lay   = rng.choice(lays)
+        progs = conc_random(rng, lay)
+        rig   = R.ConcRig(lay, progs, R.sched_ctl.randomised(random.Random(rng.randrange(10 ** 9))))
+        tr    = rig.run()
+        nsched += 1
+        conc_item(lay, progs, tr, rig.deadlock, 'random')
+    chk.notes.append('concurrent callers: %d schedules of the real classes run, %d distinct merged traces '
+                     'validated' % (nsched, len(seen)))
+    chk.evaluations += nsched
 
     # ---- 5. every trace through the monitor ----------------------------------------
     notes = {}
@@ -507,8 +738,24 @@ def _run(chk, tier, seed, pool):
                             % (dev, res.violated))
         chk.notes.append('deviation %s breaks %s in the design model' % (dev, res.violated))
 
+    for (name, lay, reqs, sups, nc), fut in zip(cscen, f_cexh):
+        res = fut.result()
+        chk.add_tlc(res, 'exhaustive:' + name)
+        if not res.ok:
+            raise Machinery('design model NodeAlloc (concurrent callers) violates %s in scenario %s:\n%s'
+                            % (res.violated, name, res.trace[:3000]))
+    for (name, lay, reqs, sups, nc), fut in zip(cscen, f_cdev):
+        res = fut.result()
+        chk.add_tlc(res, 'deviation:DevSearchOutsideLock:' + name)
+        if res.ok or res.violated not in CONC_DEV_INVARIANTS:
+            raise Machinery('deviation DevSearchOutsideLock not detected by the model (got %s)' % res.violated)
+        chk.notes.append('deviation DevSearchOutsideLock breaks %s in the design model (%s)'
+                         % (res.violated, name))
+
     chk.assumptions += [
-        'the API is used sequentially (one call at a time); Node.__lock__ interleavings are not explored',
+        'concurrent use: threads are switched at node lock acquisitions, between search and record in '
+        'Node.find_slot and between calls; the unprotected reads / writes of NodeList.__index__ and the '
+        'last-failed cache inside one such step are taken as atomic',
         'occupations are multiples of 1/4 (exact in binary floating point); other fractions are not driven',
         'uniform node lists built as Pilot.nodelist builds them; NUMA nodes (NumaNode) are not driven',
         'every held placement is released at most once (double release is an application error)']
@@ -517,7 +764,13 @@ def _run(chk, tier, seed, pool):
 def replay(chk, obj):
     inp = obj['input']
     lay = R.Layout.from_dict(inp['layout'])
-    tr  = R.NodeAllocRig(lay).run(inp['ops'])
+    if inp.get('kind') == 'conc':
+        tr, dl = conc_run(lay, inp['programs'], inp['schedule'])
+        if dl and chk.pid == 'C03':
+            chk.violation('C03.CallNeverReturns', CONC, 'threads block each other for good: %s' % dl,
+                          {'rig': 'nodealloc', 'input': inp, 'errs': ['C03.CallNeverReturns']})
+    else:
+        tr = R.NodeAllocRig(lay).run(inp['ops'])
     res, st = tracecheck.validate('NodeAlloc', 'NodeAllocTrace', lay.cfg_constants(), [tr])
     chk.traces += 1
     for err in res[0]:
